@@ -527,7 +527,9 @@ func c03OwnerHeader(p *Prog, r *Result, f *Flow, sites []ssa.CallInstruction) {
 func c03SetupDeviceValues(p *Prog, r *Result, f *Flow) {
 	r.rule("C03.setupdevice-values", "the function that stores the replacement GUID and rvinfo in the session returns those very values, and the SetupDevice payload literal takes GUID and RendezvousInfo from that function's results and Owner2Key from the owner-key helper")
 	r.floor("C03.setupdevice-values", 2)
-	for _, call := range f.CallSites(func(cal Callee, _ ssa.CallInstruction) bool { return cal.Name == "fdo.TO2SessionState.SetReplacementGUID" }) {
+	for _, call := range f.CallSites(func(cal Callee, _ ssa.CallInstruction) bool {
+		return cal.Name == "fdo.TO2SessionState.SetReplacementGUID"
+	}) {
 		fn := call.Parent()
 		guidArg := allArgs(call)[2]
 		var rvArg ssa.Value
@@ -588,7 +590,9 @@ func sameLoad(a, b ssa.Value) bool {
 func c03DIServer(p *Prog, r *Result, f *Flow) {
 	r.rule("C03.di-header-stored-is-sent", "in the DI AppStart responder the header given to SetIncompleteVoucherHeader is the literal that is returned in SetCredentials, it assigns Version, GUID, DeviceInfo, ManufacturerKey and CertChainHash, and its RvInfo is set before it is stored")
 	r.floor("C03.di-header-stored-is-sent", 1)
-	for _, call := range f.CallSites(func(cal Callee, _ ssa.CallInstruction) bool { return cal.Name == "fdo.DISessionState.SetIncompleteVoucherHeader" }) {
+	for _, call := range f.CallSites(func(cal Callee, _ ssa.CallInstruction) bool {
+		return cal.Name == "fdo.DISessionState.SetIncompleteVoucherHeader"
+	}) {
 		fn := call.Parent()
 		al, _ := allArgs(call)[2].(*ssa.Alloc)
 		if al == nil {
